@@ -246,6 +246,11 @@ def _runner(repo, fn):
         try:
             return fn(repo, it, strands(it), spec)
         except Uninterpretable as ex:
+            if "hash order" in str(ex) and "HASH.update" in str(ex):
+                # a digest (identifier) is fed the str() of a set / of a list in set-iteration order: its value differs
+                # between interpreter runs.  This is a decided answer, not an analysis gap.
+                return 1, [("identifier depends on hash order", f"a digest takes the text of an unordered collection: {ex}",
+                            "util.hashing:digest_object")]
             return 0, [("uninterpretable", str(ex), f"{CDS}.extract_sequence")]
     return work
 
